@@ -47,6 +47,7 @@ class Return(NamedTuple):
     slope: FeArray
     drdtheta: FeArray
     active: FeArray
+    converged: _types.FloatArray
 
 
 class Eigenspace(NamedTuple):
@@ -136,6 +137,14 @@ def Solve(
     ddG_e_pg = phi_e_pg + theta_e_pg * dphi_e_pg
     drdtheta_e_pg = dphi_e_pg - slope_e_pg * ddG_e_pg
 
+    # residual at the returned theta: the loop may have stopped on maxIter
+    r_e_pg = phi_e_pg - sigma_y - hardening.R(pOld_e_pg + dG_e_pg)
+    if rate is not None:
+        r_e_pg = r_e_pg - rate.inverse(dG_e_pg / dt)
+    converged_e_pg = np.asarray(
+        np.where(active_e_pg, np.abs(r_e_pg), 0.0) < tol * sigma_y, dtype=bool
+    )
+
     d_e_pg = 1.0 / (1.0 + theta_e_pg * lam)
     sig_e_pg = _Field(eigen.T, y_e_pg) @ (y_e_pg * d_e_pg)
 
@@ -149,6 +158,7 @@ def Solve(
         slope_e_pg,
         drdtheta_e_pg,
         active_e_pg,
+        converged_e_pg,
     )
 
 
